@@ -445,16 +445,27 @@ func splitSexp(s string) []string {
 	return out
 }
 
-// peelFresh strips stores at refs allocated by this function; ok reports whether the entry version of the key was reached.
+// peelFresh strips stores from a heap array version back towards the function's entry version. A store at a ref this
+// function allocated needs no condition; any other store contributes the guard "ref >= ac0" (the object written was
+// allocated after entry), which the solver has to establish. ok: the entry version of the key was reached.
 func (fc *FnCtx) peelFresh(name string) (string, bool) {
-	for {
+	b, _, ok := fc.peelGuarded(name)
+	return b, ok
+}
+
+func (fc *FnCtx) peelGuarded(name string) (string, []string, bool) {
+	var guards []string
+	for i := 0; i < 64; i++ {
 		p, ok := fc.peel[name]
-		if !ok || !(fc.localRefs[p[1]] || p[1] == "!merged") {
+		if !ok {
 			break
+		}
+		if !(fc.localRefs[p[1]] || p[1] == "!merged") {
+			guards = append(guards, sx(">=", p[1], "ac0"))
 		}
 		name = p[0]
 	}
-	return name, strings.HasPrefix(name, "|H0:")
+	return name, guards, strings.HasPrefix(name, "|H0:")
 }
 
 func (fc *FnCtx) havocAll(st *State) {
